@@ -232,6 +232,9 @@ func (a *attributeQuery) Select(t iterator) NodeNavigator {
 			if node == nil {
 				return nil
 			}
+			if node.NodeType() != ElementNode {
+				continue
+			}
 			node = node.Copy()
 			a.iterator = func() NodeNavigator {
 				for {
